@@ -192,7 +192,8 @@ def famSet (name : Str) : Fam HS.St where
   load h := (SetView.load h name, h)
   show_ := showSet
   vop h v fields := do
-    let op ← pHSOp fields
+    -- `selfupdate`: `view.update(view)` (the argument is the set itself)
+    let op ← if fields == ["selfupdate"] then some (HS.Op.update v.headers) else pHSOp fields
     let r := HS.step v op
     let h' := if r.notified then SetView.write h name r.st else h
     pure (h', r.st, resOf r.res)
@@ -392,7 +393,8 @@ def famAuth : Fam Auth.St where
   load h := (Auth.load h, h)
   show_ := showAuth
   vop h v fields := do
-    let op ← pAuthOp fields
+    -- `selfparams`: `view.parameters = view.parameters` (the assigned value is the view's own dict)
+    let op ← if fields == ["selfparams"] then some (Auth.Op.setParams v.params) else pAuthOp fields
     let r := Auth.step v op
     let a := afterWrite r.notified h (Auth.write h r.st) (oDRes oOptS r.res)
     pure (a.1, r.st, a.2)
